@@ -220,6 +220,18 @@ def equilibrium_range_values(
         #
         i_min_variance = np.argmin(variance, axis=-1) + i_min
 
+        scaled_values = scaled_spec.values
+        a1_values = spectrum.a1.values
+        b1_values = spectrum.b1.values
+
+        # a single spectrum (no leading dimensions) is treated as a batch of one
+        scalar_input = np.ndim(i_min_variance) == 0
+        if scalar_input:
+            i_min_variance = np.atleast_1d(i_min_variance)
+            scaled_values = scaled_values[None, :]
+            a1_values = a1_values[None, :]
+            b1_values = b1_values[None, :]
+
         e = np.zeros(i_min_variance.shape)
         a1 = np.zeros(i_min_variance.shape)
         b1 = np.zeros(i_min_variance.shape)
@@ -233,14 +245,16 @@ def equilibrium_range_values(
 
             indexer = tuple([ind for ind in unraveled_index] + [jj])
 
-            e[unraveled_index] += scaled_spec.values[indexer]
-            a1[unraveled_index] += spectrum.a1.values[indexer]
-            b1[unraveled_index] += spectrum.b1.values[indexer]
+            e[unraveled_index] += scaled_values[indexer]
+            a1[unraveled_index] += a1_values[indexer]
+            b1[unraveled_index] += b1_values[indexer]
         fac = 1 / number_of_bins
         e *= fac
         a1 *= fac
         b1 *= fac
 
+        if scalar_input:
+            return e[0], a1[0], b1[0]
         return e, a1, b1
 
 
